@@ -135,6 +135,7 @@ func (m *mqFacts) countCfg(stop func(ssa.Instruction) bool) engine.CountCfg {
 			return t, f, true
 		},
 		Stop: stop,
+		Deep: true,
 	}
 	return cfg
 }
